@@ -12,9 +12,11 @@ def sizes(lo, hi1, hi2=None):
     return [(a, b) for a in range(lo, hi1 + 1) for b in range(lo, hi2 + 1)]
 
 
-def kernel(name, contract, strength, finder=(), shards=None, **kw):
+def kernel(name, contract, strength, finder=(), shards=None, finder_contract=None, **kw):
     g = KernelGroup(name, contract, strength, **kw)
     g.finder_sizes = list(finder)
+    if finder_contract is not None:
+        g.finder_contract = finder_contract      # bounded counterexample search uses this (pairwise-form) contract
     g.shards = dict(shards or {})
     return register(g)
 
@@ -175,3 +177,16 @@ for _k in ('pwc', 'pwl'):
         kernel('%s_hist_acc_%s.B' % (_k, _cfg[:2]), F.History('%s_accumulate' % _k, _k, _cfg), 'B', sizes_quick=[(1, 1), (1, 2), (2, 1), (2, 2)],
                sizes_thorough=[(1, 1), (1, 2), (2, 1), (2, 2), (3, 2), (2, 3)],
                bound_text='history add ; mul_scalar ; add (same operand) then evaluate; <= 2 pieces per operand (quick) / 3 (thorough); %s kernel inlined' % _cfg)
+
+# ---- C03 / C04: SPIKE-Sync and spike-train-order profile scans, inductive, adjacent form
+from ..contracts.sync_p import SyncProfileP  # noqa
+kernel('sync_py.P', SyncProfileP(), 'P', finder=sizes(0, 2) + [(2, 3), (3, 2), (3, 3)], finder_contract=DiscreteProfile())
+kernel('sync_pyx.P', SyncProfileP(PROF, 'coincidence_profile_cython'), 'P', finder=sizes(0, 2) + [(2, 3), (3, 2), (3, 3)], finder_contract=DiscreteProfile(PROF, 'coincidence_profile_cython'))
+kernel('order_py.P', SyncProfileP(DIRPY, 'spike_train_order_profile_python', kind='order', val='a'), 'P', finder=sizes(0, 2) + [(2, 3), (3, 2), (3, 3)],
+       finder_contract=DiscreteProfile(DIRPY, 'spike_train_order_profile_python', kind='order'))
+kernel('order_pyx.P', SyncProfileP(DIRPYX, 'spike_train_order_profile_cython', kind='order', val='a'), 'P', finder=sizes(0, 2) + [(2, 3), (3, 2), (3, 3)],
+       finder_contract=DiscreteProfile(DIRPYX, 'spike_train_order_profile_cython', kind='order'))
+from ..contracts.dir_p import DirProfileP  # noqa
+kernel('dir_py.P', DirProfileP(), 'P', finder=sizes(0, 2) + [(2, 3), (3, 2), (3, 3)], finder_contract=DirectionalityProfile())
+kernel('dir_pyx.P', DirProfileP(DIRPYX, 'spike_directionality_profiles_cython'), 'P', finder=sizes(0, 2) + [(2, 3), (3, 2), (3, 3)],
+       finder_contract=DirectionalityProfile(DIRPYX, 'spike_directionality_profiles_cython'))
